@@ -29,6 +29,9 @@ pub enum CapsKind {
     InputWithoutScancodes,
     /// the Windows list without any input capability set
     NoInputCapability,
+    /// the Windows list whose multifragment-update capability (type 0x1A) announces MaxRequestSize = 64 (what the SERVER can
+    /// reassemble: it says nothing about the size of the updates the server sends)
+    SmallMultifragment,
 }
 
 /// how the server answers the final CredSSP round (pubKeyAuth echo)
@@ -587,7 +590,7 @@ impl RefServer {
     fn caps(&self) -> Vec<CapSet> {
         match self.p.caps {
             CapsKind::Minimal => share::minimal_caps(),
-            CapsKind::WindowsCapture | CapsKind::WithUnknown | CapsKind::WithZeroLenBody | CapsKind::InputWithoutScancodes | CapsKind::NoInputCapability => {
+            CapsKind::WindowsCapture | CapsKind::WithUnknown | CapsKind::WithZeroLenBody | CapsKind::InputWithoutScancodes | CapsKind::NoInputCapability | CapsKind::SmallMultifragment => {
                 let cap = share::windows_capture_demand_active();
                 let (_, _, mut caps, _) = share::parse_demand_active_body(&cap).expect("embedded capture");
                 if self.p.caps == CapsKind::WithUnknown {
@@ -604,6 +607,10 @@ impl RefServer {
                 }
                 if self.p.caps == CapsKind::NoInputCapability {
                     caps.retain(|c| c.ty != 0x000D);
+                }
+                if self.p.caps == CapsKind::SmallMultifragment {
+                    caps.retain(|c| c.ty != 0x001A);
+                    caps.insert(2, CapSet { ty: 0x001A, body: 64u32.to_le_bytes().to_vec() });
                 }
                 caps
             }
